@@ -394,29 +394,48 @@ def run(ctx):
                     return W
                 raise AnalysisError(f"unexpected subscript {norm(n)}")
             funcs["[]"] = sub
+            def apply_assigns(env_, stmts_):
+                for s_ in stmts_:
+                    if isinstance(s_, ast.Assign) and len(s_.targets) == 1 and isinstance(s_.targets[0], ast.Name):
+                        try:
+                            env_[s_.targets[0].id] = to_sympy(s_.value, env_, funcs)
+                        except AnalysisError:
+                            env_.pop(s_.targets[0].id, None)      # bookkeeping the result does not read (an unbound name fails later if it does)
             try:
+                envs = [env]
                 for st in body:
                     if st is ret:
                         break
-                    if isinstance(st, ast.Assign) and len(st.targets) == 1 and isinstance(st.targets[0], ast.Name):
-                        env[st.targets[0].id] = to_sympy(st.value, env, funcs)
-                expr = to_sympy(ret.value, env, funcs)
+                    if isinstance(st, ast.Assign):
+                        for e_ in envs:
+                            apply_assigns(e_, [st])
+                    elif isinstance(st, ast.If):
+                        # a temporary defined in both arms of a configuration test: every arm is a variant of the result
+                        forked = []
+                        for e_ in envs:
+                            for arm in (st.body, st.orelse):
+                                e2 = dict(e_)
+                                apply_assigns(e2, arm)
+                                forked.append(e2)
+                        envs = forked
+                exprs = [to_sympy(ret.value, e_, funcs) for e_ in envs]
             except AnalysisError as e:
                 raise AnalysisError(f"{q}: cannot interpret propagate expression `{short(ret, 80)}`: {e}")
-            expr = sp.expand(expr)
-            ctx.check(window_ok[0], "R3", md, ret, q, ret, f"{q}: coefficient window is coeff[cindx : cindx + m]",
-                      f"{q}: coefficient window is not coeff[{cidx} : {cidx} + self.m]")
-            # fixed point: D = P, residual-like term 0, every history slot = P  (W*H -> (1-kappa)*P since sum(window) = 1 - kappa)
-            fp = sp.simplify(expr.subs({W * H: (1 - kap) * P}).subs({D: P, R: 0}) - P)
-            ctx.check(fp == 0, "R2", md, ret, q, ret, f"{q}: D = P = history is a fixed point of the propagation",
-                      f"{q}: a stationary auxiliary density is not preserved: P_new - P = {fp}")
-            lin = sp.Poly(expr, D, P, R, W * H) if False else None
-            cD = sp.simplify(sp.diff(expr, D) + sp.diff(expr, R))
-            ok = sp.simplify(cD - kap).is_zero or (sp.simplify(cD / kap).is_number and 0.5 <= float(cD / kap) <= 1.0)
-            ctx.check(bool(ok), "R2", md, ret, q, ret, f"{q}: response coefficient is delta*kappa with delta in [0.5,1] ({sp.simplify(cD / kap)})",
-                      f"{q}: coefficient of the response term is {cD} (expected delta*kappa, 0.5 <= delta <= 1): outside the stability range")
-            cH = sp.simplify(sp.diff(expr, H) / W) if expr.has(H) else 0
-            ctx.check(cH == 1, "R2", md, ret, q, ret, f"{q}: history enters as sum_j coeff_j * slot_j", f"{q}: history term has weight {cH}")
+            for expr in exprs:
+                expr = sp.expand(expr)
+                ctx.check(window_ok[0], "R3", md, ret, q, ret, f"{q}: coefficient window is coeff[cindx : cindx + m]",
+                          f"{q}: coefficient window is not coeff[{cidx} : {cidx} + self.m]")
+                # fixed point: D = P, residual-like term 0, every history slot = P  (W*H -> (1-kappa)*P since sum(window) = 1 - kappa)
+                fp = sp.simplify(expr.subs({W * H: (1 - kap) * P}).subs({D: P, R: 0}) - P)
+                ctx.check(fp == 0, "R2", md, ret, q, ret, f"{q}: D = P = history is a fixed point of the propagation",
+                          f"{q}: a stationary auxiliary density is not preserved: P_new - P = {fp}")
+                lin = sp.Poly(expr, D, P, R, W * H) if False else None
+                cD = sp.simplify(sp.diff(expr, D) + sp.diff(expr, R))
+                ok = sp.simplify(cD - kap).is_zero or (sp.simplify(cD / kap).is_number and 0.5 <= float(cD / kap) <= 1.0)
+                ctx.check(bool(ok), "R2", md, ret, q, ret, f"{q}: response coefficient is delta*kappa with delta in [0.5,1] ({sp.simplify(cD / kap)})",
+                          f"{q}: coefficient of the response term is {cD} (expected delta*kappa, 0.5 <= delta <= 1): outside the stability range")
+                cH = sp.simplify(sp.diff(expr, H) / W) if expr.has(H) else 0
+                ctx.check(cH == 1, "R2", md, ret, q, ret, f"{q}: history enters as sum_j coeff_j * slot_j", f"{q}: history term has weight {cH}")
 
     # ---------------------------------------------------------------- R3 index agreement
     sites = _history_sites(md, ctx, "R3")
